@@ -5,23 +5,32 @@ from .common import Broken
 from . import tlc
 
 
-def run_scripts(ctx, steps, timeout=1500):
+def run_scripts(ctx, steps, timeout=1500, lz4=False):
     wd = ctx.scratch("mserver-%d" % steps)
     r = tlc.run_tlc(wd, "MpxServer.tla", "MpxServer_%d.cfg" % steps, timeout=timeout, workers=8, out_name="s%d.out" % steps, heap="6g")
     tlc.require_ok(r, "MpxServer/%d" % steps)
     binp = ctx.go_build("mserve")
-    p = ctx.run([binp, "-in", r.outfile, "-workers", "8"], timeout=timeout)
-    if p.returncode != 0:
-        raise Broken("mserve failed: %s" % p.stderr[-2000:])
     mism, summary = [], None
-    for line in p.stdout.splitlines():
-        d = json.loads(line)
-        if "summary" in d:
-            summary = d["summary"]
+    # every script twice: plain, and with lz4 negotiated by the well-formed connect request (frames inside the lz4 stream)
+    for extra in ([], ["-lz4"]) if lz4 else ([],):
+        p = ctx.run([binp, "-in", r.outfile, "-workers", "8"] + extra, timeout=timeout)
+        if p.returncode != 0:
+            raise Broken("mserve failed: %s" % p.stderr[-2000:])
+        one = None
+        for line in p.stdout.splitlines():
+            d = json.loads(line)
+            if "summary" in d:
+                one = d["summary"]
+            else:
+                if extra:
+                    d["sig"] = d.get("sig", "") + "(lz4)"
+                mism.append(d)
+        if not one or one["scripts"] == 0:
+            raise Broken("mserve played no scripts")
+        if summary is None:
+            summary = one
         else:
-            mism.append(d)
-    if not summary or summary["scripts"] == 0:
-        raise Broken("mserve played no scripts")
+            summary["scripts_lz4"] = one["scripts"]
     samples = []
     for rec in tlc.payload_lines(r.outfile):
         samples.append([{k: v for k, v in st.items() if k != "pred"} | {"alive_after": st["pred"]["alive"]} for st in rec["script"]])
